@@ -84,10 +84,17 @@ namespace occa {
       scope.props["defines"][startName] = 0;
     }
 
-    if (range.step != 1 && range.step != -1) {
-      scope.add(stepName, range.step);
+    // The loop is written as [+= step] or [-= step], so the step value
+    // passed to the kernel is the (positive) step size
+    const dim_t stepSize = (
+      range.step > 0
+      ? range.step
+      : -range.step
+    );
+    if (stepSize != 1) {
+      scope.add(stepName, stepSize);
     } else {
-      scope.props["defines"][stepName] = range.step;
+      scope.props["defines"][stepName] = 1;
     }
 
     scope.add(endName, range.end);
